@@ -44,6 +44,7 @@ type nodeMon struct {
 	validated map[string]bool              // hashes this node's ValidateBlockProposal approved
 	barePP    map[hvh]bool                 // authentic standalone PREPREPARE of leader(v), v>0, delivered
 	storedPP  map[hv]string                // proposal the node stored per (h,v)
+	blockless map[hv]bool                  // ... and it was stored without a block hashing to it
 	storedP   map[hvh]map[string]bool      // PREPARE senders the node stored (its own included)
 	heldCert  map[uint64]map[uint64]string // h -> view -> hash: the node held a prepared certificate (stored proposal + stored PREPAREs reaching quorum with the leader) while in that view
 	ignoredNV map[uint64]uint64            // h -> highest view of a delivered NEW_VIEW that the reference says must be ignored
@@ -63,7 +64,7 @@ type nodeMon struct {
 
 func newNodeMon() *nodeMon {
 	return &nodeMon{proposals: map[hvh]bool{}, validNV: map[hv]map[string]bool{}, prepares: map[hvh]map[string]bool{}, commits: map[hvh]map[string]bool{},
-		votes: map[hv]map[string]*ref.Vote{}, validated: map[string]bool{}, barePP: map[hvh]bool{}, storedPP: map[hv]string{}, storedP: map[hvh]map[string]bool{}, heldCert: map[uint64]map[uint64]string{}, ignoredNV: map[uint64]uint64{}, electedAt: map[hv]bool{}, sentPP: map[hv]string{}, sentP: map[hv]string{}, sentC: map[hv]string{}, lastVC: map[uint64]uint64{},
+		votes: map[hv]map[string]*ref.Vote{}, validated: map[string]bool{}, barePP: map[hvh]bool{}, storedPP: map[hv]string{}, blockless: map[hv]bool{}, storedP: map[hvh]map[string]bool{}, heldCert: map[uint64]map[uint64]string{}, ignoredNV: map[uint64]uint64{}, electedAt: map[hv]bool{}, sentPP: map[hv]string{}, sentP: map[hv]string{}, sentC: map[hv]string{}, lastVC: map[uint64]uint64{},
 		storedVC: map[hv]map[string]*interfaces.ViewChangeMessage{}, lastCommitH: -1, lastRoundH: -1}
 }
 
@@ -217,7 +218,7 @@ func (m *Monitors) classify(n *Node, msg *ref.Msg, pre preState) string {
 		if msg.H == pre.H && msg.V < pre.V {
 			set("stale-view-prepare")
 		}
-		if authentic && msg.Sender.Id != leader {
+		if authentic && msg.Sender.Id != leader && !(msg.H == pre.H && msg.V < pre.V) { // (a stale PREPARE is ignored by the node: it is not something it holds)
 			if nm.prepares[key] == nil {
 				nm.prepares[key] = map[string]bool{}
 			}
@@ -793,6 +794,11 @@ func (m *Monitors) onStore(n *Node, nm *nodeMon, e *spi.Event) {
 	if e.Ok && (e.Kind == spi.EvStorePP || e.Kind == spi.EvStoreP) {
 		if e.Kind == spi.EvStorePP {
 			nm.storedPP[hv{e.H, e.V}] = e.Hash
+			// (a proposal stored without its block — possible when the consumer's validator does not object to a missing block —
+			// can never be prepared: it is not a certificate the node holds)
+			if pm, ok := e.Msg.(*interfaces.PreprepareMessage); ok && (pm.Block() == nil || !bytes.Equal(spi.HashOf(pm.Block()), []byte(e.Hash))) {
+				nm.blockless[hv{e.H, e.V}] = true
+			}
 		} else {
 			k := hvh{e.H, e.V, e.Hash}
 			if nm.storedP[k] == nil {
@@ -803,7 +809,7 @@ func (m *Monitors) onStore(n *Node, nm *nodeMon, e *spi.Event) {
 		// (a leader storing its own proposal evaluates nothing: "prepared" is evaluated when a PREPARE or a leader's proposal
 		// arrives — a leader whose own weight reaches the quorum is the recorded C05 finding, not a lock it must carry)
 		ownProposal := e.Kind == spi.EvStorePP && e.Sender == n.Id
-		if hash, ok := nm.storedPP[hv{e.H, e.V}]; ok && !ownProposal && uint64(n.St.Height()) == e.H && uint64(n.St.View()) == e.V {
+		if hash, ok := nm.storedPP[hv{e.H, e.V}]; ok && !ownProposal && !nm.blockless[hv{e.H, e.V}] && uint64(n.St.Height()) == e.H && uint64(n.St.View()) == e.V {
 			c := w.Comm(e.H)
 			if weightOK(c, nm.storedP[hvh{e.H, e.V, hash}], c.Leader(e.V)) {
 				if nm.heldCert[e.H] == nil {
@@ -1036,16 +1042,12 @@ func (m *Monitors) judgeOwnViewChange(n *Node, nm *nodeMon, msg *ref.Msg) {
 	// (views are compared as unsigned 64-bit values: a prepared view may lie anywhere below the vote's view)
 	best, locked := uint64(0), false
 	var bestHash string
-	for k, hash := range nm.sentC {
-		if k.H == msg.H && k.V < msg.V && (!locked || k.V > best) {
-			// prepared path only: it held a prepared certificate when it sent that COMMIT
-			key := hvh{k.H, k.V, hash}
-			if nm.proposals[key] && weightOK(c, nm.prepares[key], c.Leader(k.V)) {
-				best, bestHash, locked = k.V, hash, true
-			}
-		}
-	}
-	// ... or, by its own storage, it held a prepared certificate while it was in that view
+	// "holding a prepared certificate" is read from the node's own storage record: its stored proposal plus stored PREPAREs of
+	// quorum weight while it was in that view. (An earlier version also inferred it from "sent COMMIT for (v, hash) and
+	// authentic PREPAREs of quorum weight were delivered to it": a node that had already left view v when those PREPAREs
+	// arrived ignores them as stale, commits on a COMMIT quorum, sends its own COMMIT on the way and — if its commit callback
+	// fails — later times out without ever having been prepared. Seen as C09 'view-change-lacks-proof' in the workloads with
+	// commit-callback failures, which are not C09's; corrected before it could become a false alarm.)
 	for v, hash := range nm.heldCert[msg.H] {
 		if v < msg.V && (!locked || v > best) {
 			best, bestHash, locked = v, hash, true
